@@ -4,6 +4,7 @@ package otr3
 
 import (
 	"bytes"
+	"crypto/sha256"
 	"encoding/binary"
 	"fmt"
 	"math/big"
@@ -307,7 +308,7 @@ func c06Transcript(w0 *verifWorld, rIx int) []string {
 		ok := w.deliverAll(60, func(to int, m []byte, r verifResult) {
 			fmt.Fprintf(b, "%d<-%s:plain=%q,err=%q,ev=[%s],out=[", to, verifMsgKind(m), r.Plain, r.Err, verifEventsString(r.Events))
 			for _, o := range r.Out {
-				b.WriteString(verifMsgKind(o) + " ")
+				fmt.Fprintf(b, "%s%s ", verifMsgKind(o), c06Content(w.P[to].C, o))
 			}
 			b.WriteString("];")
 			if r.Panic != "" {
@@ -317,7 +318,11 @@ func c06Transcript(w0 *verifWorld, rIx int) []string {
 		fmt.Fprintf(b, "quiescent=%v;%s", ok, obs(w))
 	}
 	call := func(b *strings.Builder, w *verifWorld, i int, name string, r verifResult) {
-		fmt.Fprintf(b, "%s(%d):err=%q,ev=[%s],out=%d;", name, i, r.Err, verifEventsString(r.Events), len(r.Out))
+		fmt.Fprintf(b, "%s(%d):err=%q,ev=[%s],out=%d", name, i, r.Err, verifEventsString(r.Events), len(r.Out))
+		for _, o := range r.Out {
+			b.WriteString(c06Content(w.P[i].C, o))
+		}
+		b.WriteString(";")
 		w.push(i, r.Out)
 	}
 	// B1 genuine continuation
@@ -371,6 +376,28 @@ func c06Transcript(w0 *verifWorld, rIx int) []string {
 	run(w7, &b7)
 	parts = append(parts, "query-first: "+b7.String())
 	return parts
+}
+
+// c06Content: what a data message says (opened with the emitter's keys): key ids, counter, flag, text and TLVs. Header tags and ciphertext bytes are not part of it (a peer tag learnt from the header of a
+// rejected message legitimately changes later headers).
+func c06Content(emitter *Conversation, msg []byte) string {
+	if guessMessageType(msg) != msgGuessData {
+		return ""
+	}
+	info := verifOpenOwn(emitter, msg)
+	if !info.Parsed {
+		return "/unparsed"
+	}
+	h := sha256.New()
+	fmt.Fprintf(h, "%d|%d|%d|%d|%q|", info.Flag, info.SenderKeyID, info.RecipientKeyID, info.Ctr, info.Plain)
+	for _, t := range info.TLVs {
+		if t.tlvType != tlvTypePadding {
+			fmt.Fprintf(h, "tlv%d:%x|", t.tlvType, t.tlvValue)
+		}
+	}
+	// (which MAC keys a later message discloses is C09's subject: a rejected message for a valid key pair makes the
+	// receiver compute, and later disclose, that pair's never-used receiving key — not a difference in behaviour)
+	return fmt.Sprintf("/%x", h.Sum(nil)[:5])
 }
 
 type c06Case struct {
